@@ -127,3 +127,192 @@ Proof.
   - destruct (remove_first eqb x b) as [b'|] eqn:E; [|done].
     rewrite (remove_first_perm eqb Heq _ _ _ E). by rewrite (IH b' H).
 Qed.
+
+(** * Finalisation batches: what [batch_eqb] establishes
+
+    When the judge accepts the implementation's batch [b] against the model's batch [a] (exits
+    followed by closes), [b] is [fin_reorder a] of [Tunnel/ReceiverOrder.v]: a permutation of the
+    exits followed by a permutation of the closes - exactly the freedom the hash containers of
+    [CurrentExecution::finalize] have, and the relation under which C04 and C08 are proved
+    ([Tunnel/ReceiverOrderProofs.v]).  Likewise for the registrations of a restored receiver. *)
+From TT Require Import Tunnel.ReceiverOrder Tunnel.ReceiverTrack.
+
+Lemma ebc_true F :
+  exits_before_closes true F = true → List.filter is_exit F = [] ∧ List.filter is_close F = F.
+Proof.
+  induction F as [|c F IH]; [done|]. destruct c; try done; cbn [exits_before_closes List.filter is_exit is_close].
+  intros H. destruct (IH H) as [-> ->]. done.
+Qed.
+Lemma ebc_false F :
+  exits_before_closes false F = true → F = List.filter is_exit F ++ List.filter is_close F.
+Proof.
+  induction F as [|c F IH]; [done|]. destruct c; try done; cbn [exits_before_closes List.filter is_exit is_close negb andb].
+  - intros H. cbn [app]. f_equal. by apply IH.
+  - intros H. destruct (ebc_true _ H) as [-> ->]. done.
+Qed.
+Lemma filter_exit_all F : forallb is_exit_call (List.filter is_exit F) = true.
+Proof. induction F as [|c F IH]; [done|]. destruct c; cbn [List.filter is_exit]; try done. Qed.
+Lemma filter_close_all F : forallb is_close_call (List.filter is_close F) = true.
+Proof. induction F as [|c F IH]; [done|]. destruct c; cbn [List.filter is_close]; try done. Qed.
+
+Theorem batch_eqb_fin_reorder a b :
+  exits_before_closes false a = true → batch_eqb a b = true → fin_reorder a b.
+Proof.
+  unfold batch_eqb. rewrite !andb_true_iff. intros Ha [[[[He Hc] _] _] Hb].
+  exists (List.filter is_exit a), (List.filter is_close a), (List.filter is_exit b), (List.filter is_close b).
+  split_and!.
+  - by apply ebc_false.
+  - by apply ebc_false.
+  - apply filter_exit_all.
+  - apply filter_close_all.
+  - by apply (perm_eqb_sound hcall_eqb hcall_eqb_sound).
+  - by apply (perm_eqb_sound hcall_eqb hcall_eqb_sound).
+Qed.
+
+Theorem regs_eqb_reg_reorder a b :
+  forallb is_reg_call a = true → perm_eqb hcall_eqb a b = true → reg_reorder a b.
+Proof. intros Ha H. split; [done|]. by apply (perm_eqb_sound hcall_eqb hcall_eqb_sound). Qed.
+
+(** ** the model's own batches are exits followed by closes; its registrations are registrations *)
+Lemma ebc_closes C : forallb is_close_call C = true → exits_before_closes true C = true.
+Proof.
+  induction C as [|c C IH]; [done|]. cbn [forallb]. intros H. apply andb_true_iff in H as [Hc HC].
+  destruct c; try done. by apply IH.
+Qed.
+Lemma ebc_app E C :
+  forallb is_exit_call E = true → forallb is_close_call C = true → exits_before_closes false (E ++ C) = true.
+Proof.
+  induction E as [|c E IH]; cbn [forallb app]; intros HE HC.
+  - destruct C as [|c C]; [done|]. cbn [forallb] in HC. apply andb_true_iff in HC as [Hc HC].
+    destruct c; try done. cbn [exits_before_closes]. by apply ebc_closes.
+  - apply andb_true_iff in HE as [Hc HE]. destruct c; try done. cbn [exits_before_closes negb andb]. by apply IH.
+Qed.
+
+Lemma restore_fold_regs l st0 w0 c0 :
+  forallb is_reg_call c0 = true →
+  forallb is_reg_call (fold_left restore_step l (st0, w0, c0)).2 = true.
+Proof.
+  revert st0 w0 c0. induction l as [|[id d] l IH]; intros st0 w0 c0 H0; [done|].
+  cbn [fold_left]. unfold restore_step at 2. unfold on_new_call_site. cbn [fst snd].
+  apply IH. rewrite forallb_app, H0. by destruct (negb _).
+Qed.
+Lemma restore_regs w md sp loc : forallb is_reg_call (restore w md sp loc).2 = true.
+Proof. unfold restore. by apply restore_fold_regs. Qed.
+
+Definition mobs_wf (m : mobs) : Prop :=
+  match m with
+  | MRecv _ _ _ => True
+  | MPersist e _ _ rg _ => exits_before_closes false e = true ∧ forallb is_reg_call rg = true
+  | MDrop c rg _ => exits_before_closes false c = true ∧ forallb is_reg_call rg = true
+  end.
+
+Lemma exits_of_exits ent loc : forallb is_exit_call (exits_of ent loc) = true.
+Proof.
+  unfold exits_of. induction (map_to_list ent) as [|[id c] l IH]; [done|]. cbn [flat_map].
+  rewrite forallb_app, IH, andb_true_r. destruct (loc !! id); [|done]. by induction (N.to_nat c).
+Qed.
+Lemma closes_of_closes unc loc : forallb is_close_call (closes_of unc loc) = true.
+Proof.
+  unfold closes_of. induction (elements unc) as [|i l IH]; [done|]. cbn [flat_map].
+  rewrite forallb_app, IH, andb_true_r. by destruct (loc !! i).
+Qed.
+
+Lemma hist_step_wf h s : mobs_wf (hist_step h s).2.
+Proof.
+  destruct s as [ev|k|]; cbn [hist_step].
+  - by destruct (try_receive _ _ _) as [[[o st'] w'] calls].
+  - unfold persist. cbn [fst snd].
+    pose proof (restore_regs (h_w h) (persist_metadata (h_st h) ∪ h_md h) (r_spans (h_st h))
+                  (if k then r_local (h_st h) else ∅)) as R.
+    destruct (restore _ _ _ _) as [[st' w'] regs]. cbn [snd mobs_wf] in *. split; [|done].
+    rewrite <- (app_nil_r (exits_of (r_entered (h_st h)) (r_local (h_st h)))). apply ebc_app; [apply exits_of_exits | done].
+  - pose proof (restore_regs (h_w h) (h_md h) (h_spans h) ∅) as R.
+    destruct (restore _ _ _ _) as [[st' w'] regs]. cbn [snd mobs_wf] in *. split; [|done].
+    unfold drop_calls. apply ebc_app; [apply exits_of_exits | apply closes_of_closes].
+Qed.
+
+Lemma hist_run_wf steps : ∀ h, Forall mobs_wf (hist_run h steps).
+Proof.
+  induction steps as [|s r IH]; intros h; [constructor|]. cbn [hist_run].
+  pose proof (hist_step_wf h s) as W. destruct (hist_step h s) as [h' o]. cbn [snd] in W.
+  constructor; [done|]. destruct (is_panic o); [constructor | apply IH].
+Qed.
+
+(** ** from the judge's verdict to the theorems' hypothesis
+
+    [as_mobs m i]: the model's observation with the call lists the implementation actually made,
+    in the order in which it made them. *)
+Definition as_mobs (m : mobs) (i : iobs) : mobs :=
+  match m, i with
+  | MPersist _ sp md _ st, IPersist e' _ _ rg' _ => MPersist e' sp md rg' st
+  | MDrop _ _ st, IDrop c' rg' _ => MDrop c' rg' st
+  | _, _ => m
+  end.
+Definition iobs_calls (i : iobs) : list hcall :=
+  match i with IRecv _ c _ => c | IPersist e _ _ rg _ => e ++ rg | IDrop c rg _ => c ++ rg end.
+Fixpoint zip_mobs (ms : list mobs) (is : list iobs) : list mobs :=
+  match ms, is with
+  | m :: ms', i :: is' => as_mobs m i :: zip_mobs ms' is'
+  | _, _ => []
+  end.
+
+Lemma obs_matches_reorder m i :
+  mobs_wf m → obs_matches m i = true →
+  obs_reorder m (as_mobs m i) ∧ Tunnel.ReceiverTrack.mobs_calls (as_mobs m i) = iobs_calls i.
+Proof.
+  destruct m as [o c st|e sp md rg st|c rg st], i as [o' c' s|e' sp' md' rg' s|c' rg' s]; try done;
+    cbn [mobs_wf obs_matches as_mobs obs_reorder iobs_calls Tunnel.ReceiverTrack.mobs_calls].
+  - intros _ H. apply andb_true_iff in H as [H _]. apply andb_true_iff in H as [_ H].
+    apply calls_eqb_sound in H. subst. done.
+  - intros [W1 W2] H. rewrite !andb_true_iff in H. destruct H as [[[[H1 _] _] H2] _].
+    split; [|done]. split_and!; try done; [by apply batch_eqb_fin_reorder | by apply regs_eqb_reg_reorder].
+  - intros [W1 W2] H. rewrite !andb_true_iff in H. destruct H as [[H1 H2] _].
+    split; [|done]. split_and!; try done; [by apply batch_eqb_fin_reorder | by apply regs_eqb_reg_reorder].
+Qed.
+
+Lemma all2_matches_reorder ms is :
+  Forall mobs_wf ms → all2 obs_matches ms is = true →
+  Forall2 obs_reorder ms (zip_mobs ms is) ∧
+  flat_map Tunnel.ReceiverTrack.mobs_calls (zip_mobs ms is) = flat_map iobs_calls is.
+Proof.
+  revert is. induction ms as [|m ms IH]; intros [|i is] W H; try done; [split; [constructor | done]|].
+  cbn [all2] in H. apply andb_true_iff in H as [H1 H2]. inversion W as [|x0 l0 W1 W2]; subst.
+  destruct (obs_matches_reorder m i W1 H1) as [R1 E1]. destruct (IH is W2 H2) as [R2 E2].
+  cbn [zip_mobs flat_map]. split; [by constructor | by rewrite E1, E2].
+Qed.
+
+(** When the judge finds that the implementation matched the model on a history, the
+    implementation's observations - with every batch in the order in which the calls were really
+    made - are [obs_reorder]-related to the model's, and its calls are the calls of those
+    observations. *)
+Theorem corr_history_reorder steps impl :
+  corr_history steps impl = true →
+  let obs' := zip_mobs (hist_run hist_init steps) impl in
+  Forall2 obs_reorder (hist_run hist_init steps) obs' ∧
+  flat_map Tunnel.ReceiverTrack.mobs_calls obs' = flat_map iobs_calls impl.
+Proof. intros H. apply all2_matches_reorder; [apply hist_run_wf | exact H]. Qed.
+
+(** ** C08 and C04 on the calls the implementation really made, in the order it made them *)
+From TT Require Import Tunnel.ReceiverSpec Tunnel.ReceiverHistInv Tunnel.ReceiverFinalize Tunnel.ReceiverOrderProofs.
+From stdpp Require Import gmap.
+
+Theorem impl_calls_tracked steps impl :
+  hist_scope hist_init steps → corr_history steps impl = true →
+  (∃ opn, track_all ∅ (flat_map iobs_calls impl) = Some opn) ∧ NoDup (closed (flat_map iobs_calls impl)).
+Proof.
+  intros Hsc H. destruct (corr_history_reorder steps impl H) as [R E]. rewrite <- E. split.
+  - destruct (hist_ids_valid_any_order steps _ Hsc R) as (opn & Ht & _). by exists opn.
+  - by apply (hist_close_once_any_order steps).
+Qed.
+
+Theorem impl_context_restored (ls : list life) stk impl :
+  Forall (λ l : life, is_recv (snd l) = false) ls →
+  hist_scope hist_init (lives_steps ls) → wf_drop_lives hist_init ls = true →
+  (∀ h, h ∈ stk → (h <= w_next (h_w hist_init))%N) →
+  corr_history (lives_steps ls) impl = true →
+  let obs' := zip_mobs (hist_run hist_init (lives_steps ls)) impl in
+  stack_apply stk (all_calls obs') = stk ∧ current (stack_apply stk (all_calls obs')) = current stk.
+Proof.
+  intros Hf Hsc Hwf Hold H. destruct (corr_history_reorder _ impl H) as [R _].
+  by apply (host_context_restored_any_order ls).
+Qed.
